@@ -174,6 +174,9 @@ def run(ctx) -> Result:
     try:
         from . import C05
         C05.check_objective(res, proj, rule="S4")
+        # the stored value is the objective at the solver's answer: it is the score of the returned ranking only if that
+        # ranking is the answer, decoded (C05/X4; a 12-element universe included)
+        C05._check_decode(res, proj, rule="S4", only_pulp=True)
     except ImportError:
         pass
     res.not_decided.append("numeric agreement of accumulated float deltas with the recomputed score (float error)")
